@@ -57,6 +57,14 @@ Theorem C19_structure_only_of_closed : forall src s, sfdl_structure src = Ok s -
 Proof. exact structure_only_of_closed. Qed.
 Print Assumptions C19_structure_only_of_closed.
 
+(* the whole text is the definition (D56): nothing may follow the closing '>' - no second element, no bracket that is not closed, no
+   unknown name *)
+Theorem C19_structure_only_of_whole_text : forall src s, sfdl_structure src = Ok s ->
+  exists item r pre, elements_of src = [cp_lt] :: item :: r /\ (item = T_L \/ attr_exists item = true) /\
+                     elements_of src = (pre ++ [[cp_gt]])%list.
+Proof. exact structure_only_of_whole_text. Qed.
+Print Assumptions C19_structure_only_of_whole_text.
+
 Open Scope string_scope.
 (* non-vacuity: the documentation's S6F8 example (named open lists of unnamed records, four levels) is in the domain *)
 Example C19_domain_inhabited :
